@@ -225,8 +225,31 @@ func (w *webTransport) write(data types.BufferInterface, _ bool) {
 // Closes the transport.
 func (w *webTransport) DoClose(fn types.Callable) {
 	wt_log.Debug(`closing WebTransport session`)
-	defer w.session.CloseWithError(0, "")
+	defer w.closeConn()
 	if fn != nil {
 		fn()
+	}
+}
+
+// closeConn tears the session down, but not under a batch that the last flush
+// handed over and the send goroutine is still writing: a graceful close would
+// otherwise lose the packets it had waited for. A discarded transport is closed
+// at once.
+func (w *webTransport) closeConn() {
+	if w.Discarded() {
+		w.session.CloseWithError(0, "")
+		return
+	}
+	var once sync.Once
+	closeFn := func(...any) {
+		once.Do(func() {
+			w.session.CloseWithError(0, "")
+		})
+	}
+	// "ready" is emitted after the batch in flight has been written
+	w.Once("ready", closeFn)
+	if w.Writable() {
+		w.RemoveListener("ready", closeFn)
+		closeFn()
 	}
 }
